@@ -6,16 +6,26 @@ KIND_OF = {"none": "Ok"}
 ERRMAP = {"Cyclic": "Cyclic", "NotFound": "NotFound", "Syntax": "Syntax", "Io": "Io", "WrongType": "Fault"}
 
 
+def lname(n):
+    """library n is called (lN) when n is odd and has the two-part name (d lN), kept in d/lN.sld, when n is even"""
+    return "(l%d)" % n if n % 2 else "(d l%d)" % n
+
+
+def lparts(n):
+    return ["l%d" % n] if n % 2 else ["d", "l%d" % n]
+
+
 def edge(n, i):
     """the import set through which library n imports library i: every form of import set is an edge of the graph"""
     k = (3 * n + i) % 5
-    return ["(l%d)" % i, "(only (l%d) v%d)" % (i, i), "(prefix (l%d) p%d-)" % (i, n), "(rename (l%d) (v%d w%d))" % (i, i, i), "(except (l%d) v%d)" % (i, i)][k]
+    L = lname(i)
+    return [L, "(only %s v%d)" % (L, i), "(prefix %s p%d-)" % (L, n), "(rename %s (v%d w%d))" % (L, i, i), "(except %s v%d)" % (L, i)][k]
 
 
 def lib_source(n, imports, kind):
     imps = "".join(" " + edge(n, i) for i in imports)
     body = "(define v%d (car %d))" % (n, n) if kind == "fault" else "(define v%d %d)" % (n, n)
-    name = "zz%d" % n if kind == "wrongname" else "l%d" % n
+    name = "zz%d" % n if kind == "wrongname" else lname(n)[1:-1]
     src = "(define-library (%s)\n  (import (scheme base)%s)\n  (export v%d)\n  (begin %s))\n" % (name, imps, n, body)
     if kind == "malformed":
         src = src.rstrip()[:-1] + "\n"          # drop the final parenthesis
@@ -40,18 +50,19 @@ def make_files(base, cfgid, imports, kind, bundled=False):
     d = os.path.join(base, "cfg%s" % cfgid, "prog")
     os.makedirs(d, exist_ok=True)
     for n, (imp, k) in enumerate(zip(imports, kind), start=1):
-        p = os.path.join(d, "l%d.sld" % n)
+        p = os.path.join(d, *lparts(n)) + ".sld"
+        os.makedirs(os.path.dirname(p), exist_ok=True)
         if k == "missing":
             continue
         if k == "notutf8":
             with open(p, "wb") as f:
-                f.write(b"(define-library (l%d) (export v) (begin (define v \"\xff\xfe\")))\n" % n)
+                f.write(b"(define-library " + lname(n).encode() + b" (export v) (begin (define v \"\xff\xfe\")))\n")
         else:
             with open(p, "w") as f:
                 if bundled:
                     for j in range(1, len(kind) + 1):
                         if j != n:
-                            f.write("(define-library (l%d)\n  (import (scheme base))\n  (export v%d)\n  (begin (define v%d 'decoy)))\n" % (j, j, j))
+                            f.write("(define-library %s\n  (import (scheme base))\n  (export v%d)\n  (begin (define v%d 'decoy)))\n" % (lname(j), j, j))
                 f.write(lib_source(n, imp, k))
     return d
 
@@ -61,12 +72,12 @@ def session(jid, imports, kind, attempts, mode, filedir=None):
     if mode == "registered":
         for n, (imp, k) in enumerate(zip(imports, kind), start=1):
             if k in ("ok", "fault"):
-                steps.append({"op": "reglib", "i": 0, "name": ["l%d" % n], "text": lib_source(n, imp, k)})
+                steps.append({"op": "reglib", "i": 0, "name": lparts(n), "text": lib_source(n, imp, k)})
     else:
         steps.append({"op": "progdir", "i": 0, "path": filedir})
     first = len(steps)
     for a in attempts:
-        steps.append({"op": "eval", "i": 0, "text": "(import (l%d))" % a})
+        steps.append({"op": "eval", "i": 0, "text": "(import %s)" % lname(a)})
         steps.append({"op": "loader", "i": 0})
     return {"id": jid, "kind": "session", "steps": steps}, first
 
@@ -86,7 +97,7 @@ def observe(res, first, nattempts):
         o = observed_out(rs[i])
         marks = []
         if i + 1 < len(rs) and rs[i + 1].get("k") == "loader":
-            marks = sorted(int(m.strip("()l")) for m in rs[i + 1]["st"]["inProgress"] if m.strip("()").startswith("l") and m.strip("()l").isdigit())
+            marks = sorted(int(re.search(r"l(\d+)\)$", m).group(1)) for m in rs[i + 1]["st"]["inProgress"] if re.search(r"l(\d+)\)$", m))
         out.append((o, marks))
     return out
 
@@ -217,7 +228,7 @@ def run(ctx):
             for b in range(a + 1, n + 1):
                 for order in ((a, b), (b, a)):
                     j, first = session(len(decl_jobs), v["imports"], v["kind"], [], "registered")
-                    j["steps"].append({"op": "eval", "i": 0, "text": "(import (l%d) (l%d))" % order})
+                    j["steps"].append({"op": "eval", "i": 0, "text": "(import %s %s)" % (lname(order[0]), lname(order[1]))})
                     j["steps"] += [{"op": "eval", "i": 0, "text": "v%d" % a}, {"op": "eval", "i": 0, "text": "v%d" % b}]
                     decl_jobs.append(j); decl_meta.append((key, a, b, order, first))
     dres = run_jobs(decl_jobs, ctx.dir, tag="declaration-order", timeout=2400)
